@@ -137,9 +137,15 @@ func readRecordHeaderV4(reader *checksumByteReader) (payloadSizeUncompressed uin
 		return 0, 0, false, err
 	}
 
+	checksumStart := reader.Count()
 	expectedChecksum, err := binary.ReadUvarint(reader)
 	if err != nil {
 		return 0, 0, false, err
+	}
+
+	// the checksum itself is not covered by the checksum, so only its canonical (shortest) encoding is accepted
+	if reader.Count()-checksumStart != len(binary.AppendUvarint(nil, expectedChecksum)) {
+		return 0, 0, false, fmt.Errorf("%w: non-canonical checksum encoding", HeaderChecksumMismatchErr)
 	}
 
 	if actualChecksum != expectedChecksum {
